@@ -547,7 +547,40 @@ func (g *gen) shape() [][]*spb.AFTOperation {
 		return d
 	}
 	var out [][]*spb.AFTOperation
-	switch g.pick(4) {
+	switch g.pick(5) {
+	case 4: // a large cascade: many entries of all kinds and instances held on ONE missing group, released at once
+		seen := map[string]bool{}
+		var held []*spb.AFTOperation
+		for tries := 0; len(held) < 6+g.pick(9) && tries < 60; tries++ {
+			eni := g.ni()
+			kind = []Kind{KV4, KV6, KMPLS}[g.pick(3)]
+			var ref *wpb.StringValue
+			if eni != ni || g.chance(1, 3) {
+				ref = sv(ni)
+			}
+			e := top(eni, spb.AFTOperation_ADD, gA, ref, nil)
+			_, en, _ := (&Model{NIs: map[string]bool{eni: true, ni: true}}).Analyse(e)
+			if en == nil || seen[en.Key.String()] {
+				continue
+			}
+			seen[en.Key.String()] = true
+			held = append(held, e)
+		}
+		// in one request, or trickled in over several
+		if g.chance(1, 2) {
+			out = append(out, held)
+		} else {
+			for len(held) > 0 {
+				n := 1 + g.pick(len(held))
+				out = append(out, held[:n])
+				held = held[n:]
+			}
+		}
+		if g.chance(1, 2) {
+			out = append(out, []*spb.AFTOperation{nh(ni, nhA)}, []*spb.AFTOperation{grp(ni, gA, spb.AFTOperation_ADD, nhA)})
+		} else {
+			out = append(out, []*spb.AFTOperation{grp(ni, gA, spb.AFTOperation_ADD, nhA)}, []*spb.AFTOperation{nh(ni, nhA)})
+		}
 	case 0: // held REPLACE, its target deleted, then the dependency arrives
 		e1 := top(ni, spb.AFTOperation_ADD, gA, nil, nil)
 		out = append(out, []*spb.AFTOperation{nh(ni, nhA), grp(ni, gA, spb.AFTOperation_ADD, nhA), e1})
